@@ -23,10 +23,10 @@ EXPLANATION = (
     'STRUCTURAL: type bytes are distinct and >= 0x80; every type byte the encoder (with its private helpers) mentions is me'
     'ntioned by dataReceived, a helper it calls or a table it consults; the vocabulary tables are inverse; connectionMade i'
     'nstalls the limits on every path; every sender hands _encode a sink that is not the transport and writes the transport'
-    ' only after _encode returned (must-precede). BOUNDED only - integers, lengths and streams are infinite domains and the'
+    ' only after _encode returned (must-precede); no module-level helper that receives the float itself on the way to its wire bytes is memoised (lru_cache / cache) and no table is keyed by it. BOUNDED only - integers, lengths and streams are infinite domains and the'
     ' decisions are arithmetic on values, so no complete finite domain exists: int2b128/b1282int on boundary magnitudes; se'
     "tPrefixLimit's bounds for two limits; one _encode call per value kind and limit boundary in both dialects against the "
-    'reference wire format (refusals included); one dataReceived step per type byte / completeness / limit case incl. zero-'
+    'reference wire format (refusals included); floats that compare equal but differ in bits (both zeros in both orders, NaN payloads, 1 / 1.0) encoded one after the other with memoised helpers modelled as ==/hash-keyed caches; one dataReceived step per type byte / completeness / limit case incl. zero-'
     'padded oversized prefixes whole and split; reference streams under every 2-way split and byte by byte; refused values '
     'leave nothing on a recording transport. Not decided: equality of arbitrary structures over all segmentations.'
 )
@@ -703,8 +703,14 @@ MUTANTS = [
            "        self._encode(obj, self.transport.write)\n", expect_rule="encode/refused-atomically"),
     Mutant("negative-int-boundary-sign", BANANA, "            elif obj < 0:\n                int2b128(-obj, write)\n                write(NEG)\n", "            elif obj < 0:\n                int2b128(-obj, write)\n                write(INT)\n",
            expect_rule="encode/int-forms"),
+    Mutant('float-body-packed-by-a-cached-helper', BANANA, '            write(FLOAT)\n            write(struct.pack("!d", obj))\n', '            write(FLOAT)\n            write(_packDouble(obj))\n', more=[(BANANA, 'def setPrefixLimit(limit):\n', 'import functools\n\n\n@functools.cache\ndef _packDouble(number):\n    return struct.pack("!d", number)\n\n\ndef setPrefixLimit(limit):\n')], expect_rule='encode-cfg/float-path-not-memoised'),
+    Mutant('float-bodies-remembered-in-a-module-table', BANANA, '            write(FLOAT)\n            write(struct.pack("!d", obj))\n', '            write(FLOAT)\n            write(_floatBodies.setdefault(obj, struct.pack("!d", obj)))\n', more=[(BANANA, 'def setPrefixLimit(limit):\n', '_floatBodies = {}\n\n\ndef setPrefixLimit(limit):\n')], expect_rule='encode-cfg/float-path-not-memoised'),
+    Mutant('cached-helper-reached-through-a-plain-one', BANANA, '            write(FLOAT)\n            write(struct.pack("!d", obj))\n', '            _writeFloat(obj, write)\n', more=[(BANANA, 'def setPrefixLimit(limit):\n', 'from functools import lru_cache\n\n\n@lru_cache(maxsize=None)\ndef _body(x):\n    return struct.pack("!d", x)\n\n\ndef _writeFloat(x, write):\n    write(FLOAT)\n    write(_body(x))\n\n\ndef setPrefixLimit(limit):\n')], expect_rule='encode/float-bits-independent-of-history'),
 ]
 SILENT = [
+    Silent('float-body-packed-by-a-precompiled-struct', BANANA, '            write(FLOAT)\n            write(struct.pack("!d", obj))\n', '            write(FLOAT)\n            write(_double.pack(obj))\n', more=[(BANANA, 'def setPrefixLimit(limit):\n', '_double = struct.Struct("!d")\n\n\ndef setPrefixLimit(limit):\n')]),
+    Silent('float-frame-cached-by-its-packed-bytes', BANANA, '            write(FLOAT)\n            write(struct.pack("!d", obj))\n', '            write(_floatFrame(struct.pack("!d", obj)))\n', more=[(BANANA, 'def setPrefixLimit(limit):\n', 'from functools import lru_cache\n\n\n@lru_cache(maxsize=64)\ndef _floatFrame(body):\n    return FLOAT + body\n\n\ndef setPrefixLimit(limit):\n')]),
+    Silent('float-written-by-an-uncached-module-helper', BANANA, '            write(FLOAT)\n            write(struct.pack("!d", obj))\n', '            _writeFloat(obj, write)\n', more=[(BANANA, 'def setPrefixLimit(limit):\n', 'def _writeFloat(x, write):\n    write(FLOAT)\n    write(struct.pack("!d", x))\n\n\ndef setPrefixLimit(limit):\n')]),
     Silent('prefix-test-duplicated-per-branch', BANANA, '            if len(num) > self.prefixLimit:\n                raise BananaError(\n                    "Security precaution: longer than %d bytes worth of prefix"\n                    % (self.prefixLimit,)\n                )\n', '            if typebyte == FLOAT:\n                if len(num) > self.prefixLimit:\n                    raise BananaError("Security precaution: prefix too long")\n            else:\n                if len(num) > self.prefixLimit:\n                    raise BananaError("Security precaution: prefix too long")\n'),
     Silent("merge-int-branches", BANANA, "            elif typebyte == INT:\n                buffer = rest\n                num = b1282int(num)\n                gotItem(num)\n            elif typebyte == LONGINT:\n",
            "            elif typebyte == INT or typebyte == LONGINT:\n"),
